@@ -216,11 +216,45 @@ fn execute(case: &Case) -> Vec<Obs> {
                 let st = host.0.lock().unwrap();
                 (st.regs.len(), st.seen.len())
             };
+            let mut racer_fault = 0usize;
             let (r, only_id, with_persist) = match step {
                 Step::Announce { r, id, d } => {
-                    recvs[*r]
-                        .try_receive(TracingEvent::NewCallSite { id: *id, data: d.clone() })
-                        .expect("announcement rejected");
+                    if case.idx % 5 == 0 {
+                        // racing announcements: three more receivers, on threads of their own, announce
+                        // the same description at the same moment.  Whoever wins, the step must leak one
+                        // metadata object and register it once with the (shared) host: duplicates show in
+                        // the leak counter and in the registrations observed for this step.
+                        let start = std::sync::Barrier::new(4);
+                        let racers_agree = std::thread::scope(|scope| {
+                            let handles: Vec<_> = (0..3)
+                                .map(|_| {
+                                    let (start, dispatch, d) = (&start, dispatch.clone(), d.clone());
+                                    scope.spawn(move || {
+                                        tracing_core::dispatcher::with_default(&dispatch, || {
+                                            let mut racer = TracingEventReceiver::default();
+                                            start.wait();
+                                            racer.try_receive(TracingEvent::NewCallSite { id: 7, data: d }).expect("announcement rejected");
+                                            racer.verif_snapshot().metadata.first().map(|(_, _, a)| *a)
+                                        })
+                                    })
+                                })
+                                .collect();
+                            start.wait();
+                            recvs[*r]
+                                .try_receive(TracingEvent::NewCallSite { id: *id, data: d.clone() })
+                                .expect("announcement rejected");
+                            let mine = recvs[*r].verif_snapshot().metadata.iter().find(|(i, ..)| i == id).map(|(_, _, a)| *a);
+                            handles.into_iter().all(|h| h.join().map_or(false, |a| a == mine))
+                        });
+                        // reported through an impossible leak count
+                        if !racers_agree {
+                            racer_fault = 1000;
+                        }
+                    } else {
+                        recvs[*r]
+                            .try_receive(TracingEvent::NewCallSite { id: *id, data: d.clone() })
+                            .expect("announcement rejected");
+                    }
                     (*r, Some(*id), true)
                 }
                 Step::RestoreFrom { dst, src } => {
@@ -282,7 +316,7 @@ fn execute(case: &Case) -> Vec<Obs> {
                 }
                 Step::Persist { r } => (*r, None, true),
             };
-            let dm = verif_hooks::LEAKED_METADATA.load(Ordering::SeqCst) - m0;
+            let dm = verif_hooks::LEAKED_METADATA.load(Ordering::SeqCst) - m0 + racer_fault;
             let ds = verif_hooks::LEAKED_STRINGS.load(Ordering::SeqCst) - s0;
             let mut number = |a: usize| -> u64 {
                 let n = canon.len() as u64;
